@@ -131,3 +131,31 @@ claim("C08",
            "reflection are listed in the evidence.",
       technique="TLA+ state-machine model checking (TLC) + one implementation test per transition of the state graph",
       design_ref="DESIGN.md 5 C08")
+
+
+claim("C15",
+      text="spec/Ctor2.tla grows every vertex sequence (duplicates allowed) of length 3..5 over a lattice and classifies it in exact "
+           "integer arithmetic as clearly valid / clearly invalid / within the margin for Polygon (simple cycle, via Geom2) and "
+           "for the convex classes (every point a strict hull vertex, with the expected counter-clockwise stored order); TLC "
+           "checks the classifier's internal consistency and emits every input; each is handed to Polygon, ConvexPolygon and "
+           "ConvexSpheropolygon as (N,2)/(N,3) arrays with default/explicit normals under rational placements, with off-plane "
+           "variants; Convex3 states with an exact interior or duplicate point go to ConvexPolyhedron/ConvexSpheropolyhedron; "
+           "curved shapes and rounding radii by parameter sign; every construction checks that the caller's arrays are neither "
+           "modified nor stored (CtorNoAlias of spec/HeapModel.tla is checked in C16).",
+      note="Unclear inputs (touching, straight angles, collinear overlap) are counted, never asserted. Bentley-Ottmann is bound as a "
+           "black box to Geom2.Simple.",
+      technique="TLA+ model checking (TLC) of an exact input classifier + spec-to-code replay",
+      design_ref="DESIGN.md 5 C15")
+
+claim("C16",
+      text="spec/HeapModel.tla models arrays as heap objects with identity (in-place vs re-binding statements of each call body, "
+           "references handed out to the caller, arrays owned by the caller) and TLC checks CtorNoAlias, OwnedIntact, "
+           "HandedIntact, QueryKeepsObjects and HoomdCentred up to a bounded number of calls, with a canary instance (the pinned "
+           "snapshot's bodies) that must violate them; the predicted alias facts of every call are observed on real objects of "
+           "eight classes; and every public property/query/exporter of all ten classes (by reflection) is executed alone and in "
+           "ordered pairs while the harness holds every handed-out array, checking bit-identity of handed-out and argument "
+           "arrays, history-independence and repeatability of answers, and the unchanged public projection.",
+      note="Plotting members excluded. Live arrays may differ by last-digit rounding after move-and-move-back operations, as the "
+           "property allows. The quick tier runs all single queries and a seeded sample of ordered pairs; thorough runs all pairs.",
+      technique="TLA+ heap/alias model checked by TLC + conformance of predicted alias facts + exhaustive reflective query pairs",
+      design_ref="DESIGN.md 5 C16, Appendix B")
